@@ -340,7 +340,8 @@ type caseT struct {
 	name   string // function (or "vm" for mechanisms) the class is attributed to
 	what   string // literal description
 	req    *pb.EvaluateRequestProto
-	worlds []int // nil: the small world only
+	worlds []int         // nil: the small world only
+	alone  *pb.NodeProto // part (c): the malformed piece on its own
 }
 
 type space struct {
@@ -420,6 +421,15 @@ func attribute(c caseT, f failure, world int) string {
 		return "decode:" + f.class
 	}
 	name := c.name
+	if c.alone != nil && name != "vm" {
+		// a malformed piece that fails the same way on its own is not the called function's fault
+		fails, _, _, _ := evalRequest("alone", request(c.alone), world)
+		for _, pf := range fails {
+			if pf.class == f.class && !pf.decode {
+				return "vm:" + withKind(f.class)
+			}
+		}
+	}
 	pn, nodes := producers(c.req)
 	for j := range pn {
 		fails, _, _, nilVal := evalRequest(pn[j], request(nodes[j]), world)
@@ -432,7 +442,7 @@ func attribute(c caseT, f failure, world int) string {
 			return pn[j] + ":nil-result-dereferenced"
 		}
 	}
-	if (c.part == "a-curry" || c.part == "a-arity") && !strings.Contains(f.class, "b6/api/functions.") {
+	if (c.part == "a-curry" || c.part == "a-arity") && strings.HasPrefix(f.class, "panic@b6/api.") {
 		name = "vm"
 	}
 	return name + ":" + withKind(f.class)
@@ -707,6 +717,11 @@ func build(tier string) (kit.Space, string) {
 }
 
 func main() {
+	// The code under test writes debug files into the working directory
+	// (sightline-panic.geojson); keep them out of the source tree.
+	if err := os.MkdirAll("/tmp/c23-cwd", 0o755); err == nil {
+		os.Chdir("/tmp/c23-cwd")
+	}
 	kit.Main(&kit.Check{
 		ID:    "C23",
 		Level: "exploration",
